@@ -365,6 +365,11 @@ class Rinex212NavParser(ChainParser):
             cache["skip_additional_header_line"] = True
             return
 
+        # An empty line (e.g. at the end of the file) does not start a record
+        if not any(line.values()):
+            cache["skip_additional_header_line"] = True
+            return
+
         # Get correct 4-digit year (in observation epoch only 2-digit year is given)
         if (int(line["year"]) >= 80) and (int(line["year"]) <= 99):
             year = int("19" + line["year"].zfill(2))
